@@ -651,7 +651,7 @@ class Parser:
             )
 
         if value < 1 or value > 32767:
-            if self.current_file.name != "core_defs.yaml" and self.import_coredefs:
+            if not self.is_core_file(self.current_file) and self.import_coredefs:
                 raise RTMASyntaxError(
                     f"Value outside of valid range [1 - 32767] for host_id: {name}: {value}"
                 )
@@ -676,7 +676,7 @@ class Parser:
 
         if value < 10 or (99 < value < 200):
             if (
-                self.current_file.name != "core_defs.yaml"
+                not self.is_core_file(self.current_file)
                 and value != 0
                 and self.import_coredefs
             ):
@@ -693,6 +693,12 @@ class Parser:
         self.module_ids[name] = MID(
             name, int(value), src=self.trim_root(self.current_file)
         )
+
+    @staticmethod
+    def is_core_file(path: pathlib.Path) -> bool:
+        """True only for the core_defs.yaml shipped with the package."""
+        core = pathlib.Path(os.path.realpath(__file__)).parent / "core_defs" / "core_defs.yaml"
+        return path.resolve() == core.resolve()
 
     def check_alignment(self, s: Union[SDF, MDF]):
         """Confirm 64 bit alignment of structures"""
